@@ -509,6 +509,21 @@ def _check_identity(ctx, name, X, Hkk, fullFk, tags, WH=None):
     return err, 1e-8 * kap
 
 
+def _snr_class(cfg, H, P, k=None):
+    """low / mid / high by P_k * sigma_max(H_kk)^2 / noise_var (user k, or
+    the most extreme user)"""
+    if cfg["noise"] is None:
+        return "high"
+    users = range(cfg["K"]) if k is None else [k]
+    snr = [P[u] * np.linalg.norm(H[u][u], 2) ** 2 / cfg["noise"]
+           for u in users]
+    if min(snr) < 0.1:
+        return "low"
+    if max(snr) > 1e3:
+        return "high"
+    return "mid"
+
+
 def _postconditions(ctx, solver, cls, cfg, H, P_exp, tags, who="solve"):
     """relations of the property statement that must hold after solve()"""
     K = cfg["K"]
@@ -554,7 +569,8 @@ def _postconditions(ctx, solver, cls, cfg, H, P_exp, tags, who="solve"):
         pw = _fro(fk) ** 2
         if cls == "MMSE":
             _close(ctx, "power_exceeded", max(0.0, pw / P_exp[k] - 1.0), 1e-6,
-                      "user %d |full_F|^2=%r P=%r" % (k, pw, P_exp[k]), tags)
+                   "user %d |full_F|^2=%r P=%r" % (k, pw, P_exp[k]),
+                   dict(tags, snr_class=_snr_class(cfg, H, P_exp, k)))
             if pw < P_exp[k] * (1 - 1e-6):
                 ctx.label("mmse_power_below_P")
         else:
@@ -635,6 +651,8 @@ def _check_post(case, ctx):
         solver.max_iterations = int(case["max_iter"])
     ctx.nontrivial(max(Ns) >= 2 or len(set(cfg["Nr"] + cfg["Nt"])) > 1 or
                    case["p_form"] in ("list", "array"))
+    if cls == "MMSE":
+        ctx.label("mmse_snr=" + _snr_class(cfg, H, P_exp))
     with _tagged(tags):
         solver.solve(_ns_arg(case["ns_form"], Ns), p_arg)
         n_list = _postconditions(ctx, solver, cls, cfg, H, P_exp, tags)
@@ -691,6 +709,7 @@ def _check_mono(case, ctx):
     K = cfg["K"]
     tags = _base_tags(cls, cfg, Ns, case["init"])
     tags["eig_degenerate"] = _eig_degenerate(cls, cfg, Ns)
+    tags["F_nonorthogonal"] = False
     ch, H = _build_channel(cfg)
     solver = _make_solver(cls, ch, case["seed"])
     p_arg, P_exp = _p_arg(case["p_form"], case["pvals"], K)
@@ -711,10 +730,19 @@ def _check_mono(case, ctx):
                 ctx.label("stream_reduced")
                 break
             seq.append(_check_cost(ctx, solver, cls, cfg, H, Ns, tags))
+            # the precoders are eigenvectors of a Hermitian matrix: their
+            # columns should be orthogonal (symptom tag, not a check)
+            for k in range(K):
+                G = np.asarray(solver.F[k]).conj().T @ np.asarray(solver.F[k])
+                off = float(np.abs(G - np.diag(np.diag(G))).max()) * Ns[k]
+                if off > 1e-8:
+                    tags["F_nonorthogonal"] = True
             solver.initialize_with = "fix"
     if not seq:
         return
     cost0, leak0, scale = seq[0]
+    if tags["F_nonorthogonal"]:
+        ctx.label("F_nonorthogonal")
     ctx.label("leak0>1e-3" if leak0 > 1e-3 * scale else "leak0_small")
     ctx.nontrivial(leak0 > 1e-3 * scale and len(seq) >= 3)
     for i in range(1, len(seq)):
